@@ -88,14 +88,14 @@ type ScanObs struct {
 }
 
 type Obs struct {
-	Status   int               `json:"status"`
-	Body     string            `json:"body"`
-	Stmts    []StmtObs         `json:"stmts"`
-	Visible  []string          `json:"visible"`
-	Entities []Entity          `json:"entities"`
-	ByMarker map[string]Entity `json:"-"`
-	Present  map[string]map[string]bool `json:"-"` // table -> markers that have rows in it
-	StmtErrors []string `json:"stmt_errors,omitempty"` // statements the interpreter rejected with an error ClickHouse would raise too (not this property's business)
+	Status     int                        `json:"status"`
+	Body       string                     `json:"body"`
+	Stmts      []StmtObs                  `json:"stmts"`
+	Visible    []string                   `json:"visible"`
+	Entities   []Entity                   `json:"entities"`
+	ByMarker   map[string]Entity          `json:"-"`
+	Present    map[string]map[string]bool `json:"-"`                     // table -> markers that have rows in it
+	StmtErrors []string                   `json:"stmt_errors,omitempty"` // statements the interpreter rejected with an error ClickHouse would raise too (not this property's business)
 }
 
 func standardEntities(ep *Endpoint, w Win, extra []int64) []Entity {
@@ -431,6 +431,7 @@ func judge(ep *Endpoint, cluster string, w Win, wloc *time.Location, o *Obs) []F
 				}
 				day := writerDay(e.TsNs, info.WRule, wloc)
 				admitted, evidence := adm[e.Marker], "scan"
+				passed := adm[e.Marker] // did the row get through this table's time / type predicates
 				if !reliable {
 					// fall back to the literal bounds of the real statement, and demand that the response shows the row
 					admitted, evidence = false, "bounds+response"
@@ -439,7 +440,8 @@ func judge(ep *Endpoint, cluster string, w Win, wloc *time.Location, o *Obs) []F
 							admitted = true
 						}
 					}
-					admitted = admitted && adm[e.Marker] && vis[e.Marker]
+					passed = admitted && adm[e.Marker]
+					admitted = passed && vis[e.Marker]
 				}
 				if admitted {
 					switch {
@@ -463,7 +465,7 @@ func judge(ep *Endpoint, cluster string, w Win, wloc *time.Location, o *Obs) []F
 					continue
 				}
 				in := e.TsNs >= f && (e.TsNs < t || (ep.UpIncl && e.TsNs == t))
-				if !in || !(ep.Signal == 0 || e.Type == ep.Signal) || adm[e.Marker] || vis[e.Marker] {
+				if !in || !(ep.Signal == 0 || e.Type == ep.Signal) || passed || vis[e.Marker] {
 					continue
 				}
 				for _, c := range classes {
